@@ -217,7 +217,23 @@ def run(ctx):
         # the closure must be applied over the whole body buffer (map over iter of the buffer)
         calls = [(t.get("res") or "") for _bi, t in b.calls()]
         mapped = any(c.endswith("Iterator::map") or c.endswith("::map") for c in calls) and any(c.endswith("::collect") for c in calls)
-        ctx.ob("XOR", fn.split("::")[-1], ok and mapped, f"{fn}: every body byte is XORed with GEARSET_KEY via a mapped iterator: key-xor closure {ok}, map+collect {mapped}", b.file, b.line)
+        # the same transformation in place: `for byte in buf.iter_mut() { *byte ^= KEY }` - a store through the
+        # element reference of an iter_mut() over the buffer, of that element XOR the key, inside a loop
+        inplace = False
+        if not (ok and mapped):
+            from ..prov import derive as _dv, index_of as _ixof
+
+            bix = _ixof(b)
+            for _bi, _si, s in b.stmts():
+                rv = s.get("rv", {})
+                if s["k"] == "assign" and s["lhs"]["p"] == ["*"] and rv.get("k") == "bin" and rv["op"] == "BitXor":
+                    key_side = [o for o in (rv["a"], rv["b"]) if (o.get("k") or {}).get("uneval") == "gearsets::GEARSET_KEY" or const_int(o) == 0x73]
+                    if key_side:
+                        dl = _dv(bix, {"c": {"l": s["lhs"]["l"], "p": [], "ty": ""}})
+                        cl = {c_.split("::")[-1] for c_ in dl.calls}
+                        if "next" in cl and ("iter_mut" in cl or "into_iter" in cl):
+                            inplace = True
+        ctx.ob("XOR", fn.split("::")[-1], (ok and mapped) or inplace, f"{fn}: every body byte is XORed with GEARSET_KEY: key-xor closure {ok}, map+collect {mapped}, in-place loop {inplace}", b.file, b.line)
     # reader decodes before parsing, writer encodes after serialising: order of calls
     rb = prog.body("gearsets::GearSets::from_existing")
     if rb:
